@@ -515,6 +515,7 @@ impl World {
             self.register_keys();
             self.check_stores();
             self.check_graph(r);
+            self.check_bodies(r);
             self.check_trees(r);
             for i in 0..self.reps.len() {
                 self.after_op(i);
@@ -522,6 +523,46 @@ impl World {
         }));
         if tail.is_err() && self.fails.is_empty() {
             self.fail("C08", format!("observation after operation {} aborted", kind));
+        }
+    }
+
+    /// C03 / C04 / C09: every recorded revision has a stored body (staged or committed), not merely a cached one
+    fn check_bodies(&mut self, r: usize) {
+        let m = match &self.reps[r].m {
+            Some(m) => m,
+            None => return,
+        };
+        let (idx, stage) = m.verif_data_index();
+        let have: BTreeSet<String> = idx.into_iter().map(|x| x.0).chain(stage.into_iter()).collect();
+        let mut missing = vec![];
+        for u in m.get_all_objects() {
+            for (rev, _, _) in m.verif_tree_dump(&u).unwrap_or_default() {
+                let dg = rev.splitn(2, '-').nth(1).unwrap_or("").split('_').next().unwrap_or("").to_string();
+                let special = dg == "d" || dg == "r" || dg == "e" || (dg.len() <= 8 && u32::from_str_radix(&dg, 16).is_ok());
+                if !special && !have.contains(&dg) {
+                    missing.push(format!("{} of {}", rev, u));
+                }
+            }
+        }
+        let mut unreadable = vec![];
+        for u in m.get_all_objects() {
+            for (rev, _, _) in m.verif_tree_dump(&u).unwrap_or_default() {
+                match catch_unwind(AssertUnwindSafe(|| m.get_value(&u, Some(&rev)))) {
+                    Ok(Ok(_)) => {}
+                    _ => unreadable.push(format!("{} of {}", rev, u)),
+                }
+            }
+        }
+        if !unreadable.is_empty() {
+            let w = format!("a block was applied although the object of a revision it records cannot be read: {:?}", &unreadable[..unreadable.len().min(3)]);
+            self.fail("C02", w.clone());
+            self.fail("C09", w);
+        }
+        if !missing.is_empty() {
+            let w = format!("recorded revisions whose object is neither staged nor committed (only cached, lost on eviction / never written by commit): {:?}", &missing[..missing.len().min(3)]);
+            self.fail("C04", w.clone());
+            self.fail("C03", w.clone());
+            self.fail("C09", w);
         }
     }
 
@@ -1381,9 +1422,9 @@ impl World {
                 }
             }
         }
-        // retry without faults
+        // retry without faults (unless the history goes on with the failed commit left as it is)
         let m = self.reps[r].m.as_ref().unwrap();
-        if m.has_staging() {
+        if m.has_staging() && op.get("retry").and_then(|x| x.as_bool()).unwrap_or(true) {
             let rc = m.commit(info.clone());
             {
                 let (cls, extra) = match &rc {
@@ -1988,7 +2029,7 @@ pub fn gen_op(w: &World, g: &mut Rng, sim_faults: bool) -> Value {
                     2 => vec![0, 1],
                     _ => vec![0, 2],
                 };
-                json!({"op": "failcommit", "r": r, "fail": fail, "repeats": 1 + g.below(2), "info": info(g)})
+                json!({"op": "failcommit", "r": r, "fail": fail, "repeats": 1 + g.below(2), "info": info(g), "retry": !g.chance(1, 3)})
             } else {
                 json!({"op": "commit", "r": r, "info": info(g)})
             }
